@@ -322,9 +322,28 @@ def run_shard(engine, harness_bin, seed, cases, extra, tag):
     # the pid keeps concurrent ./check runs in one tree from writing the same trace file
     tr = os.path.join(WORK, f"{tag}.{os.getpid()}.trace")
     ex = os.path.join(WORK, f"{tag}.{os.getpid()}.exp")
+    timed_out = False
     with open(tr, "w") as f:
-        p = subprocess.run([harness_bin, engine, "--seed", str(seed), "--cases", str(cases)] + extra, stdout=f,
-                           stderr=subprocess.PIPE, text=True, env=ENV, timeout=3400)
+        try:
+            p = subprocess.run([harness_bin, engine, "--seed", str(seed), "--cases", str(cases)] + extra, stdout=f,
+                               stderr=subprocess.PIPE, text=True, env=ENV, timeout=3400)
+        except subprocess.TimeoutExpired:
+            # the implementation side did not finish (e.g. a change that makes every hand-shake run into its
+            # time-out): judge the cases it completed; the unfinished last case is dropped
+            timed_out = True
+    if timed_out:
+        lines = open(tr, errors="replace").read().split("\n")
+        ids = [l.split(" ")[1] for l in lines if l.startswith("I ") and len(l.split(" ")) > 1]
+        last = ids[-1] if ids else None
+        kept = [l for l in lines[:-1] if not (last and len(l.split(" ")) > 1 and l.split(" ")[1] == last)]
+        open(tr, "w").write("\n".join(kept) + "\n")
+        with open(tr) as fin, open(ex, "w") as fout:
+            q = subprocess.run([os.path.join(OCAML, "driver"), engine], stdin=fin, stdout=fout, stderr=subprocess.PIPE,
+                               text=True, timeout=3400)
+        r = compare(tr, ex) if q.returncode == 0 else dict(n=0, mismatches=[], violations=[], inputs={}, obs={}, tags={}, trace=tr)
+        if not r["violations"] and not r["mismatches"]:
+            return dict(error=f"harness `{engine}` did not finish within 3400 s ({r['n']} cases completed without a disagreement)", trace=tr)
+        return r
     if p.returncode != 0:
         died = died_in(tr)
         if died is not None and p.returncode < 0:
